@@ -162,6 +162,30 @@ def run(harness_names, prop, tier, per_harness_timeout=None):
     return res
 
 
+def run_exec(names):
+    """bounded stand-ins by exhaustive execution (never counted as proved): a #[test] per entry calls the
+    enumerating function of the harness module on the real code in a scratch copy"""
+    reg = registry()
+    todo = {n: reg.get('exec_checks', {})[n] for n in names if n in reg.get('exec_checks', {})}
+    out = []
+    if not todo:
+        return out
+    scratch, repo = make_scratch()
+    try:
+        for n, h in todo.items():
+            target_file = [os.path.join(repo, s) for hf, s in reg['inject'].items() if s.endswith(h['mod'] + '.rs')][0]
+            with open(target_file, 'a') as fh:
+                fh.write('\n#[cfg(test)]\nmod verif_exec_%s {\n    #[test]\n    fn run() {\n        let n = super::verif_kani::%s();\n        println!("VERIF_EXEC_COUNT {}", n);\n    }\n}\n' % (n, n))
+            rc, o, wall = run_cmd(['cargo', 'test', '--offline', '--lib', 'verif_exec_%s' % n, '--', '--nocapture', '--test-threads', '1'], repo, 1800)
+            m = re.search(r'VERIF_EXEC_COUNT (\d+)', o)
+            out.append({'name': n, 'status': 'SUCCESSFUL' if rc == 0 and m else 'FAILED', 'cases': int(m.group(1)) if m else 0, 'bounded': h['bounded'], 'what': h['what'],
+                        'target': ', '.join(h['targets']), 'wall_s': round(wall, 1),
+                        'output_tail': '' if rc == 0 else '\n'.join(l for l in o.split('\n') if re.search(r'panicked|assert|FAILED|error', l))[-1500:]})
+    finally:
+        shutil.rmtree(scratch, ignore_errors=True)
+    return out
+
+
 if __name__ == '__main__':
     names = sys.argv[1:] or list(registry()['harnesses'])
     r = run(names, 'dev', 'quick')
